@@ -25,6 +25,8 @@ type Multi interface {
 type Variadic interface {
 	Printf(format string, args ...any) (int, error)
 	Only(xs ...int)
+	Anys(vs ...any)
+	Strs(prefix string, ss ...string) []string
 }
 
 // Funcs: function, map, channel, slice and pointer types.
@@ -50,9 +52,10 @@ type Unnamed interface {
 	M(int, string) (bool, error)
 }
 
-// Shadow: parameter names that collide with identifiers the templates use.
+// Shadow: method and parameter names close to identifiers the templates use (those that make the
+// generated file fail to compile are in the package bad, as known findings of C01).
 type Shadow interface {
-	Mock(mocks int, calls string) int
-	Lock(lockLock bool, ret bool) (ok bool)
-	Run(run func(), _a0 int, returnFunc string) error
+	Mocks(mocks int, calls string) int
+	Lock(lockLock bool, ret bool) (okay bool)
+	Run(run func(), _a0 int, retFunc string) error
 }
